@@ -47,18 +47,34 @@ def m1(run: Run, cy: CyProgram):
                         return n_.a[0], int(float(c_.a[0]))
             return None
         norm = None
+        fbody0 = f.body
+        try:
+            from .loopir import inline_value_helpers, fold_subcounters
+            ib = fold_subcounters(inline_value_helpers(f))
+            if ib is not None:
+                import copy as _copy
+                f = _copy.copy(f)
+                f.body = ib
+        except Exception:
+            f.body = fbody0
         for st in walk(f.body):
             if isinstance(st, X) and st.k == "assign" and strip(st.a[1]).k == "bin" and \
                     strip(st.a[1]).a[0] == "/" and \
                     numerator(strip(st.a[1]).a[1]) is not None:
                 norm = st
         if norm is None:
-            raise AnalysisError(f"{f.where}: normalisation statement not found")
+            run.unknowns.append(f"M1: {f.where}: {f.name}: no statement `out[i] = "
+                                f"counter / normaliser` found (restructured kernel); "
+                                f"clique test and normaliser not decided")
+            continue
         counter, mult = numerator(strip(norm.a[1]).a[1])
         sites = [s for s in count_sites(f.body) if s.counter == counter]
         if len(sites) != 1:
-            raise AnalysisError(f"{f.where}: expected one `{counter} += 1` in {f.name}, "
-                                f"found {len(sites)}")
+            run.unknowns.append(f"M1: {f.where}: {f.name}: {len(sites)} sites "
+                                f"`{counter} += 1` (the count is produced by helpers "
+                                f"in a form that is not read); clique test and "
+                                f"normaliser not decided")
+            continue
         s = sites[0]
         adj = next((n for n, t in f.args if t.kind in ("buffer", "memview")
                     and t.ndim == 2), "A")
